@@ -121,7 +121,8 @@ theorem insertNewLeaves_cons (f : Bool) (p : Proposal) (old : Leaf) (rest : List
         insertNewLeaves f rest (insertLeaf t (leafIdxOf p) p.leaf) ((p, old) :: done)
       else if !f then .error (.tree .duplicateLeafData)
       else if !conflicts t old then insertNewLeaves f rest (insertLeaf t (leafIdxOf p) old) done
-      else .ok (none, done.reverse.foldl (fun t po => insertLeaf t (leafIdxOf po.1) po.2) t) := rfl
+      else .ok (none, (done.reverse ++ (p, old) :: rest).foldl
+        (fun t po => insertLeaf t (leafIdxOf po.1) po.2) t) := rfl
 
 /-! ## removes -/
 
@@ -554,6 +555,92 @@ theorem ins_stable (t1 : Tree) : ∀ {pairs : List (Proposal × Leaf)} {tc tf : 
           simp only [this, false_or, hj, ite_false]
       · cases h
 
+/-! ## updates: the revert-all branch puts every old leaf back -/
+
+/-- re-inserting old leaves (the ones `t1` holds at those positions) -/
+theorem fold_restore (t1 : Tree) : ∀ (L : List (Proposal × Leaf)) (t : Tree),
+    (∀ po ∈ L, t1[pos po]? = some (some (Node.leaf po.2)) ∧ pos po < t.length) →
+    (L.foldl (fun t po => insertLeaf t (leafIdxOf po.1) po.2) t).length = t.length ∧
+      ∀ j : Nat, (L.foldl (fun t po => insertLeaf t (leafIdxOf po.1) po.2) t)[j]? =
+        if j ∈ L.map pos then t1[j]? else t[j]?
+  | [], t, _ => ⟨rfl, fun j => by simp⟩
+  | (p, old) :: L, t, h => by
+    obtain ⟨ho, hlt⟩ := h (p, old) List.mem_cons_self
+    have hlt' : 2 * leafIdxOf p < t.length := hlt
+    simp only [List.foldl_cons]
+    rw [insertLeaf_eq _ hlt']
+    obtain ⟨ih1, ih2⟩ := fold_restore t1 L (t.set (2 * leafIdxOf p) (some (Node.leaf old)))
+      (fun po hpo => by
+        rw [List.length_set]; exact h po (List.mem_cons_of_mem _ hpo))
+    refine ⟨by rw [ih1, List.length_set], fun j => ?_⟩
+    rw [ih2 j]
+    simp only [List.map_cons, List.mem_cons]
+    by_cases hj : j ∈ L.map pos
+    · simp only [hj, or_true, ite_true]
+    · simp only [hj, or_false, ite_false]
+      by_cases he : j = pos (p, old)
+      · subst he
+        rw [if_pos rfl]
+        show (List.set t (2 * leafIdxOf p) _)[2 * leafIdxOf p]? = _
+        rw [List.getElem?_set_self hlt']
+        exact ho.symm
+      · rw [if_neg he, List.getElem?_set_ne (fun (h : 2 * leafIdxOf p = j) => he h.symm)]
+
+/-- when the second loop ends in the revert-all branch, the tree is the one before the first loop -/
+theorem ins_revert_tree (t1 : Tree) : ∀ {pairs : List (Proposal × Leaf)} {tc tf : Tree}
+    {done : List (Proposal × Leaf)},
+    insertNewLeaves true pairs tc done = .ok (none, tf) →
+    (∀ po ∈ pairs, t1[pos po]? = some (some (Node.leaf po.2))) →
+    (∀ po ∈ done, t1[pos po]? = some (some (Node.leaf po.2))) →
+    tc.length = t1.length →
+    (∀ j : Nat, j ∉ pairs.map pos → j ∉ done.map pos → tc[j]? = t1[j]?) →
+    tf = t1
+  | [], tc, tf, done, h, _, _, _, _ => by
+    simp only [insertNewLeaves] at h
+    cases h
+  | (p, old) :: rest, tc, tf, done, h, hp, hd, hl, hinv => by
+    rw [insertNewLeaves_cons] at h
+    have ho := hp (p, old) List.mem_cons_self
+    have hlt : 2 * leafIdxOf p < tc.length := by
+      rw [hl]; exact lt_of_getElem?_eq_some ho
+    have hp' : ∀ po ∈ rest, t1[pos po]? = some (some (Node.leaf po.2)) :=
+      fun po hpo => hp po (List.mem_cons_of_mem _ hpo)
+    split at h
+    · rw [insertLeaf_eq _ hlt] at h
+      refine ins_revert_tree t1 h hp' (fun po hpo => ?_) (by rw [List.length_set, hl]) (fun j h1 h2 => ?_)
+      · rcases List.mem_cons.1 hpo with rfl | hpo
+        · exact ho
+        · exact hd po hpo
+      · simp only [List.map_cons, List.mem_cons, not_or] at h2
+        rw [List.getElem?_set_ne (fun (he : 2 * leafIdxOf p = j) => h2.1 he.symm)]
+        exact hinv j (by simp only [List.map_cons, List.mem_cons, not_or]; exact ⟨h2.1, h1⟩) h2.2
+    · simp only [Bool.not_true, Bool.false_eq_true, ite_false] at h
+      split at h
+      · rw [insertLeaf_eq _ hlt] at h
+        refine ins_revert_tree t1 h hp' hd (by rw [List.length_set, hl]) (fun j h1 h2 => ?_)
+        by_cases he : j = pos (p, old)
+        · subst he
+          show (List.set tc (2 * leafIdxOf p) _)[2 * leafIdxOf p]? = _
+          rw [List.getElem?_set_self hlt]; exact ho.symm
+        · rw [List.getElem?_set_ne (fun (h : 2 * leafIdxOf p = j) => he h.symm)]
+          exact hinv j (by simp only [List.map_cons, List.mem_cons, not_or]; exact ⟨he, h1⟩) h2
+      · cases h
+        have hall : ∀ po ∈ done.reverse ++ (p, old) :: rest,
+            t1[pos po]? = some (some (Node.leaf po.2)) ∧ pos po < tc.length := fun po hpo => by
+          have hx : t1[pos po]? = some (some (Node.leaf po.2)) := by
+            rcases List.mem_append.1 hpo with hpo | hpo
+            · exact hd po (List.mem_reverse.1 hpo)
+            · exact hp po hpo
+          exact ⟨hx, by rw [hl]; exact lt_of_getElem?_eq_some hx⟩
+        obtain ⟨r1, r2⟩ := fold_restore t1 _ tc hall
+        refine List.ext_getElem? fun j => ?_
+        rw [r2 j]
+        split
+        · rfl
+        · rename_i hj
+          simp only [List.map_append, List.map_reverse, List.mem_append, List.mem_reverse, not_or] at hj
+          exact hinv j hj.2 hj.1
+
 /-! ## updates: both loops -/
 
 /-- the "revert all" branch of the second loop is taken -/
@@ -566,15 +653,12 @@ def updatesRevert (us : List Proposal) (t : Tree) : Bool :=
   | .error _ => false
 
 theorem applyUpdatesF_stable {us applied : List Proposal} {t t2 : Tree}
-    (h : applyUpdatesF true us t = .ok (applied, t2)) (hnr : updatesRevert us t = false) :
+    (h : applyUpdatesF true us t = .ok (applied, t2)) :
     applyUpdatesF false applied t = .ok (applied, t2) ∧ applied.Sublist us := by
   unfold applyUpdatesF at h
-  unfold updatesRevert at hnr
   split at h
   · cases h
   · rename_i pairs ta htake
-    rw [htake] at hnr
-    simp only at hnr
     obtain ⟨hlen, hta, hnd, holds, hsub⟩ := takeOldLeaves_spec htake
     split at h
     · cases h
@@ -608,7 +692,11 @@ theorem applyUpdatesF_stable {us applied : List Proposal} {t t2 : Tree}
       unfold applyUpdatesF
       simp only [htr, this]
     · rename_i tb hins
-      rw [hins] at hnr; cases hnr
+      cases h
+      have := ins_revert_tree t hins (fun po hpo => (holds po hpo).1) (fun po hpo => by cases hpo) hlen
+        (fun j h1 _ => by rw [hta j, if_neg h1])
+      subst this
+      exact ⟨rfl, List.nil_sublist _⟩
 
 theorem takeOldLeaves_false : ∀ {us : List Proposal} {pairs : List (Proposal × Leaf)} {t ta : Tree},
     takeOldLeaves false us t = .ok (pairs, ta) → pairs.map (·.1) = us
@@ -712,11 +800,9 @@ theorem batchEditF_of {f : Bool} {b : Bundle} {t t1 t2 t3 : Tree} {removes updat
   simp only [hr, hu, ha, bind, Except.bind, pure, Except.pure]
 
 theorem batchEditF_stable {b : Bundle} {t : Tree} {out : EditOut}
-    (h : batchEditF true b t = .ok out) (hnr : editReverts b t = false) :
+    (h : batchEditF true b t = .ok out) :
     batchEditF false out.bundle t = .ok out := by
   obtain ⟨removes, t1, updates, t2, adds, added, t3, hr, hu, ha, rfl⟩ := batchEditF_ok h
-  unfold editReverts at hnr
-  rw [hr] at hnr
-  exact batchEditF_of (applyRemovesF_stable hr) (applyUpdatesF_stable hu hnr).1 (applyAddsF_stable ha)
+  exact batchEditF_of (applyRemovesF_stable hr) (applyUpdatesF_stable hu).1 (applyAddsF_stable ha)
 
 end MlsVerif.Proposals
